@@ -26,7 +26,7 @@ THEOREMS['C05'] = ['FB.run_refines', 'FB.replay_sound', 'FB.C13_read_replay', 'F
                    'FB.nested_second_run', 'FB.replay_run', 'FB.run_keeps', 'FB.run_absent', 'FB.n_first',
                    'FB.C05_nested_rebuild', 'FB.cachedIn_nested', 'FB.nested_ok_run', 'FB.nested_first_facts', 'FB.outputs_eq_targetsDeep', 'FB.run_keys', 'FB.run_dirs_kept', 'FB.mkdirs_dirsToMake', 'FB.replay_runF',
                    'FB.nested_rerun', 'FB.C05_nested_rerun', 'FB.f_first', 'FB.g_first',
-                   'FB.run_argsRefl', 'FB.C05_nested_rebuild_wf']
+                   'FB.run_argsRefl', 'FB.C05_nested_rebuild_wf', 'FB.C05_nested_rebuild_inputs']
 THEOREMS['C06'] = ['FB.C06_changed_invalidates', 'FB.C06_changed_invalidatesL', 'FB.C06_lookup_tests_version',
                    'FB.C06_equal_versions_pass', 'FB.C06_unrelated_versions_stay_cached', 'FB.nested_second_run']
 THEOREMS['C08'] = ['FB.C08_dup_file_rejected', 'FB.C08_dup_file_no_effect', 'FB.C08_dup_sub_no_effect',
